@@ -181,6 +181,13 @@ Theorem C17_no_nil_dereference_refuted_without_fix :
 Proof. exists [Init 0 IFsFail []], (Mount 1 1 true). vm_compute. reflexivity. Qed.
 Print Assumptions C17_no_nil_dereference_refuted_without_fix.
 
+(* The observations the implementation is compared on every run ([run], evaluated by the correspondence check) are
+   exactly the step results, backend calls and views of the states the theorems above speak about. *)
+Theorem C17_observations_are_steps :
+  forall g e os, run (init g e) os = (exec (init g e) os, trace (init g e) os).
+Proof. intros g e os. exact (run_trace os (init g e)). Qed.
+Print Assumptions C17_observations_are_steps.
+
 (* ---- non-vacuity ---- *)
 (* snapshotter restart with live mounts and a new configuration, then manager restart with a failing restore:
    mounts 1,2 made under config 0 by instance 0; re-Init with config 1 builds instance 1 and mounts nothing;
